@@ -168,11 +168,27 @@ Theorem C06_unchecked_pc_witnesses :
   (exists t, target_pc 4096 8192 0 = SOk t /\ source_map_add t 8192 = SPanic).
 Proof. exact unchecked_pc_witnesses. Qed.
 Print Assumptions C06_unchecked_pc_witnesses.
-(* the range check where a value enters the program counter (`* =`, segment start, segment pc): all values *)
+(* the range checks where a value enters the program counter: segment options start / pc are addresses (0..$FFFF),
+   `* =` also accepts the end of the address space (0..$10000); all values *)
 Theorem C06_address_check_spec : forall v,
-  (0 <= v <= 65536 -> address_check v = SOk v) /\ (~ 0 <= v <= 65536 -> address_check v = SDiag diag_pc_out_of_range).
+  (0 <= v <= 65535 -> address_check v = SOk v) /\ (~ 0 <= v <= 65535 -> address_check v = SDiag diag_pc_out_of_range).
 Proof. exact address_check_spec. Qed.
 Print Assumptions C06_address_check_spec.
+Theorem C06_pc_value_check_spec : forall v,
+  (0 <= v <= 65536 -> pc_value_check v = SOk v) /\ (~ 0 <= v <= 65536 -> pc_value_check v = SDiag diag_pc_out_of_range).
+Proof. exact pc_value_check_spec. Qed.
+Print Assumptions C06_pc_value_check_spec.
+(* Bank::prg_header asserts start < 65536: exact guard, and every accepted segment start satisfies it *)
+Theorem C06_prg_header_panics_iff : forall s, prg_header s = SPanic <-> 65536 <= s.
+Proof. exact prg_header_panics_iff. Qed.
+Print Assumptions C06_prg_header_panics_iff.
+Theorem C06_prg_header_of_accepted_start : forall v s, address_check v = SOk s -> prg_header s <> SPanic.
+Proof. exact prg_header_of_accepted_start. Qed.
+Print Assumptions C06_prg_header_of_accepted_start.
+(* a program that defines `segments.<name>.start` itself: the assembler's span-less symbol clashes -- a diagnostic *)
+Theorem C06_spanless_clash_is_diagnostic : spanless_clash = SDiag diag_redefine.
+Proof. exact spanless_clash_is_diagnostic. Qed.
+Print Assumptions C06_spanless_clash_is_diagnostic.
 (* `* = v` in a segment: a diagnostic iff v is outside 0..$10000 or its relocated address is negative; else the invariant holds *)
 Theorem C06_set_pc_spec : forall v initial target,
   0 <= initial <= 65536 -> 0 <= target <= 65536 ->
